@@ -188,7 +188,18 @@ pub fn check_relation(which: Which, cat: &Catalog, rel: &Relation, sql: &str, fe
                         tainted.insert(name.clone());
                         let origin = match node {
                             Relation::Map(m) => {
-                                let c = m.projection().get(ci).map(|e| culprits_for(e, &m.input().data_type(), row[ci].is_null())).unwrap_or_default();
+                                let c = m.projection().get(ci).map(|e| {
+                                    let c = culprits_for(e, &m.input().data_type(), row[ci].is_null());
+                                    // the engine types the projection against the input narrowed by the
+                                    // Map's own filter (`a IN (2, 3)` makes an integer column float{2, 3})
+                                    match (c.is_empty(), m.filter().as_ref()) {
+                                        (true, Some(f)) => match guarded(|| m.input().data_type().filter(f)) {
+                                            Ok(narrowed) => culprits_for(e, &narrowed, row[ci].is_null()),
+                                            Err(_) => c,
+                                        },
+                                        _ => c,
+                                    }
+                                }).unwrap_or_default();
                                 if c.is_empty() { column_origin(node, ci) } else { c.join(" + ") }
                             }
                             Relation::Reduce(_) if row[ci].is_null() => "aggregate (empty or all-NULL input)".to_string(),
